@@ -92,9 +92,9 @@ class World(BaseWorld):
                 if (a in diam) != (gd is not None) or (a in diam and not close(float(gd), float(diam[a]))):
                     raise Violation('diameter_value_wrong', opname, {'key': a, 'got': repr(gd), 'want': diam.get(a)}, step)
                 if a in diam:
-                    vol = float(lib('volume[t]', S.volume.__getitem__, fresh_key(a)))
+                    vol = lib('volume[t]', S.volume.__getitem__, fresh_key(a))
                     want = math.pi * float(diam[a]) ** 3 / 6.0
-                    if not close(vol, want):
+                    if vol is None or not close(float(vol), want):
                         raise Violation('volume_wrong', opname, {'key': a, 'got': vol, 'want': want}, step)
                 for b in types:
                     if a in dens and b in dens:
